@@ -106,19 +106,6 @@ def signature(f):
     key, policy = f.get('key'), f.get('policy')
     kinds = _kinds(f['root_kind'])
     is_list = f['root_kind'].startswith('list(')
-    if clause == 'nodup' and fn in ('get_instances', 'get_libraries', 'get_definitions') and pats and len(pats) >= 2 \
-            and absp and f.get('dup_values') is not None and all(v in absp for v in f['dup_values']) \
-            and any(routes_to_stage_b(fn, k, f.get('selection'), f.get('recursive')) for k in kinds):
-        return 'nodup|stage-B-absolute-pattern-not-consumed'
-    if clause in ('nodup', 'callback') and fn in ('get_instances', 'get_libraries') and is_list and (pats is None or nonabs):
-        sel = f.get('selection')
-        if any(not routes_to_stage_b(fn, k, sel, f.get('recursive')) for k in kinds) and any(routes_to_stage_b(fn, k, sel, f.get('recursive')) for k in kinds):
-            return 'nodup|stage-A-finds-reiterated-by-stage-B'
-    if policy == 'DEFAULT' and key == 'EDIF.identifier' and absp and fn in STAGE_A_FUNCS:
-        if clause == 'filter' and not f.get('extra') and f.get('missing') and all(v in absp for v in f['missing_values']):
-            return 'filter|default-policy-identifier-lookup-answers-nothing'
-        if clause == 'lookup' and not f.get('only_registered') and f.get('only_deregistered') and all(v in absp for v in f['values']):
-            return 'lookup|default-policy-identifier-lookup-answers-nothing'
     if policy == 'EDIF' and key == 'EDIF.identifier' and absp:
         low = [p.lower() for p in absp]
         if clause == 'filter' and not f.get('extra') and f.get('missing') and \
@@ -127,9 +114,6 @@ def signature(f):
         if clause == 'lookup' and not f.get('only_deregistered') and f.get('only_registered') and \
                 all(v not in absp and v.lower() in low for v in f['values']):
             return 'lookup|edif-identifier-case-folded-only-by-fast-lookup'
-    if key not in (None, '.NAME', 'EDIF.identifier') and clause == 'filter' and absp and fn in STAGE_A_FUNCS \
-            and not f.get('extra') and f.get('missing') and all(v in absp for v in f['missing_values']) and f.get('n_result', 0) >= 1:
-        return 'filter|unregistered-key-lookup-first-match-only'
     if fn in qo.HIER and clause == 'filter' and not f.get('missing') and f.get('extra') and \
             (is_list or any(k not in ('netlist', 'href:instance') for k in kinds) or f.get('selection') in ('OUTSIDE', 'BOTH', 'ALL')):
         return 'filter|hierarchical-query-ignores-patterns-for-this-root-or-selection'
@@ -706,8 +690,9 @@ def assumptions():
         'strings are ASCII; values under a key are str or absent (None = absent)',
         'regex patterns outside the modelled fragment (anchors, {m,n}, lazy/possessive quantifiers, (?..), \\d \\w ...) are not compared with the model; the oracle still uses Python re for them',
         'the empty string as a pattern is excluded from the filter theorems (hypothesis ~ In [] pats)',
-        'lookups_ok / LookOK (fast lookup = scan, sibling values unique) is property C10\'s invariant; it is a hypothesis here (derived from '
-        'C10\'s table invariant for the key .NAME: C13_lookup_hypothesis_for_names)',
+        'lookups_ok / LookOK (what global_service.lookup answers = every child carrying the value) is a hypothesis of the filter theorems; '
+        'it is derived from C10\'s table invariant for the key .NAME (C13_lookup_hypothesis_for_names) and holds outright for keys without a '
+        'registered lookup and with the lookups deregistered (C13_lookup_hypothesis_for_scanned_keys)',
         'the enumeration theorems assume the structural invariants QWF (C01/C02 invariants, well-kinded ids; hold in every state reached by '
         'editing calls: C13_reachable_states) and speak about runs that end within the fuel (WOk); that some fuel suffices is proved for '
         'get_netlists / get_ports / get_pins in every such state and for get_instances / get_definitions when the design hierarchy is acyclic '
